@@ -4,10 +4,16 @@ Proof gate: Props/C16.v (protocol model, all interleavings, every N >= 1, Q >= 1
 Stream c16.run: generated Elk async programs (tree / chain / fan shapes of tasks that start and await each
 other) are run with the real `elk run` under ELK_DEFAULT_THREAD_POOL_SIZE x ELK_DEFAULT_THREAD_POOL_QUEUE_SIZE
 with a watchdog; outcome class and the printed tags are compared with the extracted model's exhaustive
-exploration of the same program under the same (N, Q)."""
+exploration of the same program under the same (N, Q).
+Flood family (same stream): a `mid` task starts one or two leaves (and optionally co-awaiters of the same leaf),
+then k short filler tasks (k from Q+1 / 2Q+3 / 40 for the queue sizes used) before and between its awaits, so that
+promises WITH continuations settle while the bounded queue is full and fallback senders keep it full.  Small
+floods (<= FLOOD_EXH_TASKS tasks) are explored exhaustively by the model; large ones are predicted by the model's
+deterministic first-enabled scheduler (all interleavings of 40 interchangeable fillers are not enumerable)."""
 import json
 import os
 import re
+import signal
 import subprocess
 import time
 
@@ -18,6 +24,10 @@ QS = (1, 2, 3, 256)
 WATCHDOG = 3       # seconds before the watchdog starts asking whether the process is blocked
 HARD = 90          # a process that is still consuming CPU after this long is reported as "busy", not as a deadlock
 TAG = re.compile(r"<[^<>\n]*>")
+FLOOD_CFGS = ((1, 1), (1, 2), (1, 8), (2, 1), (2, 2), (2, 8))
+FLOOD_KS_SMALL = (2, 3, 4)            # Q+1 for Q = 1, 2, 3; total tasks stay explorable
+FLOOD_KS_BIG = (5, 7, 9, 19, 40)      # 2Q+3 for Q = 1, 2, 3, 8; Q+1 for Q = 8; 40
+FLOOD_EXH_TASKS = 6                   # floods with more tasks than this are not explored exhaustively
 
 
 # ------------------------------------------------------------------ programs
@@ -66,6 +76,50 @@ def gen_program(rng, max_tasks):
     main = gen_body(rng, kids[-1])
     tasks = [gen_body(rng, kids[i]) for i in range(n)]
     return shape, (main, tasks)
+
+
+def gen_flood(rng, big):
+    """mid(0) starts leaves, optional co-awaiters of leaf 1, then k fillers before / between its awaits.
+    Returns (shape, program, coawait) - coawait: some task awaits a promise started by its parent before it (outside
+    the Coq wf class of C16_quiescent_complete, still inside the invariants and the exploration)."""
+    k = rng.choice(FLOOD_KS_BIG if big else FLOOD_KS_SMALL)
+    nleaf = 1 if not big else rng.choice([1, 1, 2])
+    ncoaw = rng.choice([0, 0, 1, 2]) if big else rng.choice([0, 0, 0, 1])
+    nested = big and k <= 19 and rng.chance(1, 3)
+    nmain = rng.choice([0, 0, 1, 2]) if big else 0
+    if not big and 1 + nleaf + ncoaw + k > FLOOD_EXH_TASKS:
+        ncoaw = 0
+    tasks = [[]]                       # 0 = mid
+    leaves = list(range(1, 1 + nleaf))
+    tasks += [[] for _ in leaves]
+    coaw = list(range(len(tasks), len(tasks) + ncoaw))
+    tasks += [[("a", leaves[0])] for _ in coaw]
+    fillers = list(range(len(tasks), len(tasks) + k))
+    tasks += [[] for _ in fillers]
+    if nested:
+        for f in fillers:
+            if rng.chance(1, 2):
+                g = len(tasks)
+                tasks.append([])
+                tasks[f] = [("s", g), ("a", g)]
+    mainf = list(range(len(tasks), len(tasks) + nmain))
+    tasks += [[] for _ in mainf]
+    mid = [("s", j) for j in leaves] + [("s", j) for j in coaw]
+    split = rng.choice([k, k, k - 1, (k + 1) // 2])     # fillers before the first await; the rest between awaits
+    mid += [("s", j) for j in fillers[:split]]
+    rest = fillers[split:]
+    for i, lf in enumerate(leaves):
+        mid.append(("a", lf))
+        if i == 0 or not leaves[i + 1:]:
+            mid += [("s", j) for j in rest]
+            rest = []
+    others = coaw + fillers
+    while others:
+        mid.append(("a", others.pop(rng.below(len(others)))))
+    tasks[0] = mid
+    main = [("s", 0)] + [("s", j) for j in mainf] + [("a", 0)] + [("a", j) for j in mainf]
+    shape = "flood%s%s%s" % ("-big" if big else "", "-coaw" if coaw else "", "-nested" if nested else "")
+    return shape, (main, tasks), bool(coaw)
 
 
 def body_str(b):
@@ -204,11 +258,74 @@ def run_watch(cmd, cwd, env, soft=WATCHDOG, hard=HARD):
                 verdict = "blocked"
             elif time.time() - t0 > hard:
                 verdict = "busy"
+            if verdict == "blocked":
+                # ask the Go runtime for a goroutine dump (SIGQUIT) before killing: used to classify the hang
+                try:
+                    p.send_signal(signal.SIGQUIT)
+                    out, _ = p.communicate(timeout=10)
+                    break
+                except (subprocess.TimeoutExpired, OSError):
+                    pass
             if verdict != "exited":
                 p.kill()
                 out, _ = p.communicate()
                 break
     return p.returncode, out.decode("utf-8", "replace"), verdict
+
+
+def split_dump(out):
+    """(program output, goroutine dump) - the dump follows the runtime's 'SIGQUIT: quit' line"""
+    for mark in ("SIGQUIT: quit", "fatal error: all goroutines are asleep"):
+        i = out.find(mark)
+        if i >= 0:
+            return out[:i], out[i:]
+    return out, ""
+
+
+GOR = re.compile(r"^goroutine \d+ [^\[\n]*\[([^\]\n]*)\]:\n((?:.+\n)*)", re.M)
+
+
+def dump_summary(dump):
+    """wait reasons of the goroutines that are inside package vm: {'chan send': n, 'chan receive': n, ...}"""
+    res = {}
+    for m in GOR.finditer(dump):
+        if "github.com/elk-language/elk/vm." not in m.group(2):
+            continue
+        st = m.group(1).split(",")[0].strip()
+        res[st] = res.get(st, 0) + 1
+    return res
+
+
+def hang_kind(p, tags, dump):
+    """Classify an observed hang from the implementation's own output.
+    lost-wakeup  : some started task is suspended at `await j`, <fj> was printed (j's body ran to its end, Resolve
+                   follows immediately) and no goroutine of package vm is blocked in a channel send or on a mutex -
+                   the runtime is idle although an awaiter of a settled promise was never resumed;
+    blocked-send : a goroutine inside package vm is blocked sending into the task queue / locking a promise;
+    unclassified : neither."""
+    main, tasks = p
+    printed = set(tags)
+    waiting = []
+    for t, b in enumerate(tasks):
+        if "<s%d>" % t not in printed or "<f%d>" % t in printed:
+            continue
+        k = 0
+        for op, j in b:
+            if op == "a":
+                k += 1
+                if "<r%d.%d>" % (t, k) not in printed:
+                    waiting.append((t, j))
+                    break
+    lost = [(t, j) for t, j in waiting if "<f%d>" % j in printed]
+    summ = dump_summary(dump)
+    blocked = sum(v for k2, v in summ.items() if k2.startswith("chan send") or "Mutex" in k2)
+    if not dump:
+        return "no-goroutine-dump", lost, summ
+    if blocked:
+        return "blocked-send", lost, summ
+    if lost:
+        return "lost-wakeup", lost, summ
+    return "unclassified", lost, summ
 
 
 def outcome(rc, out, verdict):
@@ -220,7 +337,7 @@ def outcome(rc, out, verdict):
 
 
 def qclass(q):
-    return "Q=%d" % q if q <= 3 else "Q=256"
+    return "Q=%d" % q if q <= 8 else "Q=256"
 
 
 # ------------------------------------------------------------------ the check
@@ -230,10 +347,13 @@ def run(ctx):
         "Proved in Coq on a statement-granularity transition system of AWAIT / continuation registration / "
         "Resolve-Reject / bounded task queue (main thread + N workers + fallback goroutines, any static program "
         "table, all interleavings by induction over reachable states, every N>=1 and Q>=1): no lost wake-up and "
-        "never twice (place-uniqueness invariant), resumed exactly once per suspension, settled once, and progress "
-        "of the FIXED enqueue protocol (non-blocking send with goroutine fallback: fixes/C16-nonblocking-enqueue.patch). "
-        "For the protocol as found (blocking sends) progress is refuted by a vm_compute witness at N=1,Q=1 and proved "
-        "only under the guard 'queue not full'. Progress means: a step exists or the runtime is quiescent (workers idle, "
+        "never twice (place-uniqueness invariant), resumed exactly once per suspension, settled once, the conservation "
+        "law of the settle step (each send moves exactly the head continuation, exactly once, into queue-or-fallback; "
+        "the fallback is per continuation) and progress of the enqueue protocol of the tree (non-blocking send with "
+        "goroutine fallback, fixes/C16-nonblocking-enqueue.patch, applied). Two refuted designs by vm_compute witnesses at "
+        "N=1,Q=1: blocking sends (the tree before the fix; progress proved only under the guard 'queue not full') and a "
+        "batched fallback that skips the continuation whose send failed (C16_skip_one_fallback_refuted: lost wake-up). "
+        "Progress means: a step exists or the runtime is quiescent (workers idle, "
         "nothing queued, main finished or waiting on an unsettled promise); C16_quiescent_complete proves that for "
         "well-formed programs (a body awaits only promises it started itself, task i starts only larger indices) a "
         "quiescent reachable state has the main thread finished and no started task unsettled - so no reachable state "
@@ -241,10 +361,17 @@ def run(ctx):
         "proved); finiteness and the verdict term/hang/mixed are re-observed per configuration by the extracted "
         "model's exhaustive breadth-first exploration in stream c16.run. "
         "The tie is differential: real `elk run` on generated tree/chain/fan programs under N in {1,2,4} x Q in "
-        "{1,2,3,256} with a watchdog; outcome class and tag multiset (each start/resume/finish tag exactly once, "
-        "per-task order) are compared with the model's verdict for the same program and configuration. Go's "
+        "{1,2,3,256}, and on a flood family (a task starts leaves and optional co-awaiters, then k in {2..40} short tasks "
+        "before/between its awaits so that promises with continuations settle while the queue is full) under N in {1,2} x Q "
+        "in {1,2,8}, with a watchdog; outcome class and tag multiset (each start/resume/finish tag exactly once, "
+        "per-task order) are compared with the model's verdict for the same program and configuration. Floods with more "
+        "than %d tasks are not explored exhaustively: their expected result is the model's first-enabled-scheduler run plus the "
+        "implementation-level exactly-once tag oracle; co-awaiter programs are outside the wf class of "
+        "C16_quiescent_complete (invariants and exploration still apply). Observed hangs are classified from the "
+        "implementation's own tags and Go's SIGQUIT goroutine dump. Go's "
         "sync.Mutex, channel and select semantics are the modelled primitives (trusted). No yield-point trace stream "
-        "(c16.trace) was built: schedules of the real runtime are whatever Go chooses under the small configurations.")
+        "(c16.trace) was built: schedules of the real runtime are whatever Go chooses under the small configurations."
+        % FLOOD_EXH_TASKS)
     ctx.trusted_base += [
         "Go sync.Mutex / buffered channel / select-default / WaitGroup semantics as modelled (lock = holder's control state; blocking send or Lock = step not enabled)",
         "model reading of vm/thread.go AWAIT, vm/thread_pool.go executeBytecodePromise/AddTask, vm/promise.go Resolve/Reject/enqueueContinuations (validated only by stream c16.run)",
@@ -257,7 +384,22 @@ def run(ctx):
     rng = ctx.rng(stream)
     cap = ctx.n(60000, 1500000)
 
-    progs = []   # (pid, shape, program)
+    progs = []   # (pid, shape, program, configs, exhaustive, coawait)
+    all_cfgs = [(n, q) for n in NS for q in QS]
+
+    def ntasks(p):
+        return len(p[1])
+
+    def has_coawait(p):
+        for t, b in enumerate(p[1]):
+            mine = set()
+            for op, j in b:
+                if op == "s":
+                    mine.add(j)
+                elif j not in mine:
+                    return True
+        return False
+
     if ctx.replay:
         rj = json.load(open(ctx.replay))
         case = rj.get("case") or ""
@@ -265,16 +407,18 @@ def run(ctx):
         if not mm:
             ctx.broke("replay file has no C16 case", str(case))
             return
-        progs.append(("replay", "replay", parse_prog(mm.group(3))))
-        configs = [(int(mm.group(1)), int(mm.group(2)))]
+        rp = parse_prog(mm.group(3))
+        progs.append(("replay", "replay", rp, [(int(mm.group(1)), int(mm.group(2)))], ntasks(rp) <= FLOOD_EXH_TASKS + 1,
+                      has_coawait(rp)))
     else:
-        configs = [(n, q) for n in NS for q in QS]
         corpus = os.path.join(vlib.ROOT, "corpus", "C16.run.txt")
         if os.path.exists(corpus):
             for i, line in enumerate(open(corpus)):
                 line = line.split("#")[0].strip()
                 if line:
-                    progs.append(("c%d" % i, "corpus", parse_prog(line)))
+                    cp = parse_prog(line)
+                    small = ntasks(cp) <= FLOOD_EXH_TASKS + 1
+                    progs.append(("c%d" % i, "corpus", cp, all_cfgs if small else list(FLOOD_CFGS), small, has_coawait(cp)))
         seen = set(prog_str(p[2]) for p in progs)
         want = len(progs) + ctx.n(20, 300)
         tries = 0
@@ -285,16 +429,29 @@ def run(ctx):
             if s in seen:
                 continue
             seen.add(s)
-            progs.append(("g%d" % len(progs), shape, p))
+            progs.append(("g%d" % len(progs), shape, p, all_cfgs, True, False))
+        # flood family: small floods explored exhaustively, large floods predicted by the first-enabled scheduler
+        frng = ctx.rng(stream + ".flood")
+        for big, cnt in ((False, ctx.n(6, 60)), (True, ctx.n(8, 120))):
+            got = tries = 0
+            while got < cnt and tries < cnt * 20:
+                tries += 1
+                shape, p, coaw = gen_flood(frng, big)
+                s = prog_str(p)
+                if s in seen:
+                    continue
+                seen.add(s)
+                got += 1
+                progs.append(("f%d" % len(progs), shape, p, list(FLOOD_CFGS), ntasks(p) <= FLOOD_EXH_TASKS, coaw))
 
     # ---- model: exhaustive exploration per (program, config), fixed protocol and protocol-as-found
     ids, inputs = [], {}
-    for pid, shape, p in progs:
+    for pid, shape, p, configs, exh, coaw in progs:
         for (n, q) in configs:
-            for mode in ("F", "O"):
+            for mode in (("F", "O") if exh else ("F",)):
                 cid = "%s@N%dQ%d%s" % (pid, n, q, mode)
                 ids.append(cid)
-                inputs[cid] = "%s %d %d %d;%s" % (mode, n, q, cap, prog_str(p))
+                inputs[cid] = "%s %d %d %d;%s" % (mode, n, q, cap if exh else 0, prog_str(p))
     # split the model work over 8 processes
     chunks = [ids[i::8] for i in range(8)]
     res = vlib.parallel_map(lambda ch: vlib.run_model(m, ch, inputs, timeout=2400) if ch else (0, {}, ""), chunks, workers=8)
@@ -310,13 +467,13 @@ def run(ctx):
 
     # ---- implementation: one elk process per (program, config)
     runs = []
-    for pid, shape, p in progs:
+    for pid, shape, p, configs, exh, coaw in progs:
         src = elk_source(p)
         for (n, q) in configs:
-            runs.append((pid, shape, p, n, q, src))
+            runs.append((pid, shape, p, n, q, src, exh, coaw))
 
     def one(r):
-        pid, shape, p, n, q, src = r
+        pid, shape, p, n, q, src, exh, coaw = r
         name = "%s_N%dQ%d" % (pid, n, q)
         path = os.path.join(ctx.workdir, name + ".elk")
         with open(path, "w") as f:
@@ -336,49 +493,84 @@ def run(ctx):
     samples = []
     n_dead = 0
     n_cap = 0
-    for r, (rc, out, wverdict) in zip(runs, results):
-        pid, shape, p, n, q, src = r
+    n_nox = 0
+    n_svar = 0
+    for r, (rc, rawout, wverdict) in zip(runs, results):
+        pid, shape, p, n, q, src, exh, coaw = r
         case = "N=%d Q=%d %s" % (n, q, prog_str(p))
-        oc = outcome(rc, out, wverdict)
+        out, dump = split_dump(rawout)
+        oc = outcome(rc, rawout, wverdict)
         tags = TAG.findall(out)
         cidF = "%s@N%dQ%dF" % (pid, n, q)
         cidO = "%s@N%dQ%dO" % (pid, n, q)
         vF = (model.get(cidF) or "missing").split(" ")[0]
-        vO = (model.get(cidO) or "missing").split(" ")[0]
+        vO = (model.get(cidO) or "not-run").split(" ")[0]
         dist["%s/%s" % (shape, oc)] = dist.get("%s/%s" % (shape, oc), 0) + 1
         dist["model_fixed=" + vF] = dist.get("model_fixed=" + vF, 0) + 1
         dist["model_asfound=" + vO] = dist.get("model_asfound=" + vO, 0) + 1
         if any(op == "a" for b in p[1] for op, _ in b):
             distinct.add(case)
-        if len(samples) < 4 and (len(samples) < 2 or oc != "ok"):
-            samples.append({"input": case, "observed": oc + " " + "".join(tags)[:120], "model_fixed": model.get(cidF, "")[:160],
+        if len(samples) < 6 and (len(samples) < 2 or oc != "ok" or (shape.startswith("flood") and len(samples) < 4)):
+            samples.append({"input": case[:300], "observed": oc + " " + "".join(tags)[:120], "model_fixed": model.get(cidF, "")[:160],
                             "model_as_found": vO})
         if cidF not in model or vF in ("missing", "bad-input"):
             ctx.broke("c16.run: model gave no verdict for " + case, model.get(cidF, ""))
             continue
-        if mfield(cidF, "wf") != "1":
+        if mfield(cidF, "wf") != "1" and not coaw:
             ctx.broke("c16.run: generator produced a program the model calls ill-formed: " + case)
             continue
         # model self-checks (the theorems, re-observed on this configuration)
         for cid, mode in ((cidF, "fixed"), (cidO, "as-found")):
-            if mfield(cid, "exact") == "0" or mfield(cid, "det") == "0":
+            if cid in model and (mfield(cid, "exact") == "0" or mfield(cid, "det") == "0" or mfield(cid, "fexact") == "0"):
                 ctx.broke("c16.run: explored model state violates exactly-once/determinism (%s protocol): %s" % (mode, case), model.get(cid, ""))
         if vF == "cap":
             n_cap += 1
+        elif vF == "nox":
+            # too many interchangeable tasks for the exhaustive exploration: the model's first-enabled scheduler
+            # must run the program to completion (C16_progress + C16_quiescent_complete say every maximal run does)
+            n_nox += 1
+            if mfield(cidF, "first") != "term":
+                ctx.fail("model-fixed-protocol-can-hang:first-enabled-scheduler",
+                         "fixed-protocol model, first-enabled scheduler, does not finish " + case, stream=stream, case=case,
+                         impl=oc, model=model.get(cidF), oracle="C16_progress re-observed on one schedule")
         elif vF != "term":
             ctx.fail("model-fixed-protocol-can-hang:%s" % mfield(cidF, "hang"),
                      "fixed-protocol model explores a stuck state for " + case, stream=stream, case=case,
                      impl=oc, model=model.get(cidF), oracle="C16_progress re-observed by exploration")
         final = mfield(cidF, "final")
+        if vF == "nox" and mfield(cidF, "first") == "term":
+            final = mfield(cidF, "ffinal")
         exp_tags = expected_tags(p, final) if final and final != "-" else None
         if oc == "deadlock":
             n_dead += 1
+            kind, lost, summ = hang_kind(p, tags, dump)
+            gsum = ", ".join("%s x%d" % kv for kv in sorted(summ.items())) or "no goroutine dump"
+            how = ("Go runtime: all goroutines are asleep" if "all goroutines are asleep" in rawout
+                   else "watchdog: after %ds no CPU used and no runnable thread" % WATCHDOG)
+            if kind == "lost-wakeup":
+                # optional: does the refuted 'skip one' variant of the model predict exactly this?
+                svar = ""
+                if exh and n_svar < 3:
+                    n_svar += 1
+                    sid = cidF[:-1] + "S"
+                    src_, sexp, _ = vlib.run_model(m, [sid], {sid: "S %d %d %d;%s" % (n, q, cap, prog_str(p))}, timeout=600)
+                    sres = sexp.get(sid, "")
+                    sl = re.search(r"lost=(\S+)", sres)
+                    svar = "; model variant step_fn_skip (C16_skip_one_fallback_refuted) explored on this input: %s, lost tasks %s" % (
+                        sres.split(" ")[0] or "no-verdict", sl.group(1) if sl else "?")
+                ctx.fail("hang-lost-wakeup:N=%d:%s" % (n, qclass(q)),
+                         "%s hangs (%s) with the runtime idle: %s suspended and never resumed although the awaited promise's task "
+                         "finished; goroutines in package vm: %s; printed %s%s" % (
+                             case, how, ", ".join("task %d at `await %d`" % tj for tj in lost), gsum,
+                             "".join(tags)[:400] or "nothing", svar),
+                         stream=stream, case=case, impl=oc + " " + "".join(tags), model="term " + "".join(exp_tags or []),
+                         oracle="an awaiting task is resumed exactly once after the awaited promise settles; the program "
+                                "terminates when every task terminates (fixed-protocol model: term)")
+                continue
             cls = mfield(cidO, "hang") if vO in ("mixed", "hang") else "not-predicted-by-model-of-code-as-found"
             ctx.fail("deadlock:N=%d:%s:%s" % (n, qclass(q), cls),
-                     "%s hangs (%s); printed %s; model of the code as found: %s" % (
-                         case, "Go runtime: all goroutines are asleep" if "all goroutines are asleep" in out
-                         else "watchdog: after %ds no CPU used and no runnable thread" % WATCHDOG,
-                         "".join(tags) or "nothing", model.get(cidO, "")[:120]),
+                     "%s hangs (%s; %s; goroutines in package vm: %s); printed %s; model of the code as found: %s" % (
+                         case, how, kind, gsum, "".join(tags)[:400] or "nothing", model.get(cidO, "")[:120]),
                      stream=stream, case=case, impl=oc + " " + "".join(tags), model="term " + "".join(exp_tags or []),
                      oracle="the program terminates when every task terminates (fixed-protocol model: term)")
             continue
@@ -404,11 +596,17 @@ def run(ctx):
                 impl="".join(st), model="".join(exp_tags), oracle="tag multiset equals the model's terminal state")
     ctx.extra["deadlocks_observed"] = n_dead
     ctx.extra["model_explorations_capped"] = n_cap
+    ctx.extra["runs_predicted_by_first_enabled_scheduler_only"] = n_nox
     ctx.stream(stream, len(runs), len(distinct),
                "seeded tree/chain/fan task programs (2..%d tasks, every child awaited >= once by its parent, occasional double "
-               "await) + corpus, each x N in {1,2,4} x Q in {1,2,3,256}; real elk under a watchdog (after %ds: deadlock iff the "
-               "process uses no CPU and has no runnable thread over 0.8 s, else it may run on up to %ds); model = breadth-first exploration of ALL interleavings of the extracted step_fn (cap %d states, "
-               "worker symmetry reduced) for the fixed protocol (gating) and the protocol as found (classifies hangs); "
-               "non-trivial = program with at least one await inside a task; distinct by (program, N, Q)" % (
-                   ctx.n(5, 7), WATCHDOG, HARD, cap),
-               samples, dist, programs=len(progs), configs=len(configs))
+               "await) + corpus, each x N in {1,2,4} x Q in {1,2,3,256}; plus the FLOOD family x N in {1,2} x Q in {1,2,8}: a mid "
+               "task starts 1-2 leaves (and 0-2 co-awaiters of the first leaf), then k fillers (k in %s explored exhaustively, k in "
+               "%s predicted by the model's first-enabled scheduler only; some fillers nest a spawn+await) before/between its "
+               "awaits, so promises with continuations settle while the bounded queue is full; real elk under a watchdog (after %ds: "
+               "deadlock iff the process uses no CPU and has no runnable thread over 0.8 s, else it may run on up to %ds; a blocked "
+               "process is asked for a goroutine dump, hang class = lost-wakeup when an awaiter of a finished task is suspended and "
+               "no vm goroutine is blocked in a send/lock); model = breadth-first exploration of ALL interleavings of the extracted "
+               "step_fn (cap %d states, worker symmetry reduced) for the fixed protocol (gating) and the blocking-send protocol "
+               "(classifies blocked-send hangs); non-trivial = program with at least one await inside a task; distinct by "
+               "(program, N, Q)" % (ctx.n(5, 7), list(FLOOD_KS_SMALL), list(FLOOD_KS_BIG), WATCHDOG, HARD, cap),
+               samples, dist, programs=len(progs), configs=len(all_cfgs) + len(FLOOD_CFGS))
